@@ -174,6 +174,19 @@ class DropletBase:
             # on the data.
             self.data = np.recarray(1, dtype=dtype)[0]
 
+    def __getstate__(self) -> dict[str, Any]:
+        """Return the state of the droplet for pickling."""
+        return {"data": self.data}
+
+    def __setstate__(self, state: dict[str, Any]) -> None:
+        """Restore the state of the droplet after unpickling."""
+        # Records restored by pickle are detached scalars, which silently ignore
+        # assignments to their fields. We thus attach the data to a fresh array, exactly
+        # as in `_init_data`, so the droplet can be modified like any other one.
+        data = np.recarray(1, dtype=state["data"].dtype)
+        data[0] = state["data"]
+        self.data = data[0]
+
     def __init_subclass__(cls, **kwargs):
         """Modify subclasses of this base class."""
         super().__init_subclass__(**kwargs)
